@@ -251,8 +251,8 @@ class ParseCountsView(Table):
         self.parsers = parsers
 
     def __iter__(self):
-        counter, errors = parsecounter(self.table, self.field, self.parsers)
         yield ('type', 'count', 'errors')
+        counter, errors = parsecounter(self.table, self.field, self.parsers)
         for (item, n) in counter.most_common():
             yield (item, n, errors[item])
 
@@ -353,8 +353,8 @@ class TypeCountsView(Table):
         self.field = field
 
     def __iter__(self):
-        counter = typecounter(self.table, self.field)
         yield ('type', 'count', 'frequency')
+        counter = typecounter(self.table, self.field)
         counts = counter.most_common()
         total = sum(c[1] for c in counts)
         for c in counts:
